@@ -1,5 +1,5 @@
 From Coq Require Import List NArith Arith Permutation Sorted.
-From SK Require Import lib.LGraph lib.Mono model.C11_Model proof.C11_Aut proof.C11_WL proof.C11_Dedup proof.C11_Main proof.C11_Comp proof.C11_VF2 proof.C11_Vocab proof.C11_Sig proof.C11_Anchor model.C11_State proof.C11_StateProof model.C11_Partial proof.C11_PartialProof proof.C11_PruneClass proof.C11_WLPart proof.C11_Idem model.C11_Keys model.C11_Attr proof.C11_AttrProof model.C11_Orbit proof.C11_OrbitProof proof.C11_Extend model.C11_Order proof.C11_OrderProof model.C11_Views proof.C11_ViewsProof proof.C11_Singleton proof.C11_Count proof.C11_WLMono model.C11_AttrFull proof.C11_Subset model.C11_State2 proof.C11_State2Proof model.C11_Attr3 proof.C11_Attr3Proof.
+From SK Require Import lib.LGraph lib.Mono model.C11_Model proof.C11_Aut proof.C11_WL proof.C11_Dedup proof.C11_Main proof.C11_Comp proof.C11_VF2 proof.C11_Vocab proof.C11_Sig proof.C11_Anchor model.C11_State proof.C11_StateProof model.C11_Partial proof.C11_PartialProof proof.C11_PruneClass proof.C11_WLPart proof.C11_Idem model.C11_Keys model.C11_Attr proof.C11_AttrProof model.C11_Orbit proof.C11_OrbitProof proof.C11_Extend model.C11_Order proof.C11_OrderProof model.C11_Views proof.C11_ViewsProof proof.C11_Singleton proof.C11_Count proof.C11_WLMono model.C11_AttrFull proof.C11_Subset model.C11_State2 proof.C11_State2Proof model.C11_Attr3 proof.C11_Attr3Proof model.C11_Image proof.C11_ImageProof.
 Import ListNotations.
 
 (** Vocabulary (definitions in proof/C11_Aut.v, written out here for the reader):
@@ -687,3 +687,27 @@ Theorem C11_three_views :
     (forall s, is_automorphism n_full e_full (to_graph3 ag) s <-> rule_automorphism [K_atom_map] ag s).
 Proof. exact three_views. Qed.
 Print Assumptions C11_three_views.
+
+(** Clause 4, second half, with a CONCRETE premise (round 5; model/C11_Image.v).  The labelled image of the rule centre under
+    a match: [image_nodes rc m] = (host atom, full label of the rule atom placed on it), [image_edges rc m] = (host atom,
+    host atom, full label of the rule bond placed on the pair); [same_image] compares both as sets.  For matches on the rule
+    centre: every raw match has the labelled image of a kept match, so ANY result that is a function of the labelled image
+    takes the same set of values on the kept matches as on all raw matches.  Gluing is such a function (the ITS graph is the
+    host with the rule's atom types and bond changes written onto the image: C05) - this replaces the abstract premise
+    "invariant under rule automorphisms" of C11_prune_same_results by "depends only on where each labelled rule atom and
+    bond lands".  [images_ok] is the computed form, evaluated on every rule application. *)
+Theorem C11_prune_same_images :
+  forall (X : Type) (key : X -> mapping) (rc : graph) (raw : list X),
+    simple_graph rc ->
+    (forall x p h, In x raw -> In (p, h) (key x) -> In p (node_ids rc)) ->
+    (forall x, In x raw -> exists y, In y (prune key rc raw) /\ same_image rc (key x) (key y) = true) /\
+    (forall y, In y (prune key rc raw) -> In y raw) /\
+    (forall (R : Type) (res : mapping -> R),
+       (forall m m', same_image rc m m' = true -> res m = res m') ->
+       forall r, In r (map (fun x => res (key x)) raw) <-> In r (map (fun x => res (key x)) (prune key rc raw))) /\
+    (forall m m', same_image rc m m' = true <->
+       (forall x, In x (image_nodes rc m) <-> In x (image_nodes rc m')) /\
+       (forall x, In x (image_edges rc m) <-> In x (image_edges rc m'))) /\
+    (forall raw' : list mapping, dom_ok rc raw' = true -> images_ok rc raw' = true).
+Proof. exact prune_same_images_all. Qed.
+Print Assumptions C11_prune_same_images.
